@@ -1116,8 +1116,15 @@ class Interp:
         if v[0] == "not":
             t = self.truth(v[1], s)
             return None if t is None else (not t)
-        if v[0] in ("closure", "func", "cls", "lambda"):
+        if v[0] in ("closure", "func", "cls", "lambda", "partial"):
             return True
+        if v[0] == "obj":
+            try:
+                c_ = self.p.cls(v[1])
+                if self.p.find_method(c_, "__bool__") is None and self.p.find_method(c_, "__len__") is None:
+                    return True
+            except Exception:
+                pass
         if (v, True) in s.facts:
             return True
         if (v, False) in s.facts:
@@ -1141,7 +1148,7 @@ class Interp:
             if op == "In" and a[0] == "const" and b[0] in ("set", "tuple", "list") and all(x[0] == "const" for x in b[1]):
                 return a in b[1]
             if op == "Is" and b == NONE:
-                if a[0] in ("closure", "func", "cls", "tuple", "list", "dict", "fstr", "binop", "enter"):
+                if a[0] in ("closure", "func", "cls", "tuple", "list", "dict", "fstr", "binop", "enter", "record", "obj", "partial", "lambda", "set", "comp"):
                     return False
                 # x is None decided by an earlier truthiness fact on x
                 if (a, True) in s.facts:
@@ -1300,6 +1307,12 @@ class Interp:
                 vals = tuple(elem_term(x) if isinstance(expr, ast.Tuple) else const(lit(x)) for x in inner.elts)
                 is_set = isinstance(expr, ast.Set) or (isinstance(expr, ast.Call) and expr.func.id == "frozenset")
                 out = ("set", vals) if is_set else ("tuple", vals)
+            elif isinstance(expr, ast.Call) and self.p.resolve_dotted(mod, expr.func) == ("ext", "functools.partial") and expr.args \
+                    and not any(isinstance(a, ast.Starred) for a in expr.args) and all(k.arg for k in expr.keywords):
+                # NAME = functools.partial(<repository function>, <literals>...): the partial object written in place
+                out = ("partial", elem_term(expr.args[0]), tuple(elem_term(a) for a in expr.args[1:]), tuple((k.arg, elem_term(k.value)) for k in expr.keywords))
+                if out[1][0] != "func":
+                    out = None
             else:
                 out = const(lit(expr))
         except Exception:
@@ -1376,11 +1389,33 @@ class Interp:
                     res.append((b[1][i[1]], s2))
                 elif b[0] == "dict" and i[0] == "const" and all(k is not None and k[0] == "const" for k, _ in b[1]) and any(k == i for k, _ in b[1]):
                     res.append(([v for k, v in b[1] if k == i][-1], s2))
+                elif isinstance(e.ctx, ast.Load) and i[0] == "const" and self._eafp_lookup(e):
+                    # EAFP: `try: v = m[K] except KeyError: A else: B` is `if K in m: v = m[K]; B else: A` - the lookup forks on membership
+                    memb = ("cmp", "In", i, b)
+                    t_ = self.truth(memb, s2)
+                    if t_ is not True:
+                        out.exc.append(("KeyError", s2.with_fact(memb, False)))
+                    if t_ is not False:
+                        res.append((("sub", b, i), s2.with_fact(memb, True)))
                 else:
                     for ex in self.client.call_raises(self, ("getitem", b, i), e, s2):
                         out.exc.append((ex, s2))
                     res.append((("sub", b, i), s2))
         return res
+
+    def _eafp_lookup(self, e: ast.AST) -> bool:
+        """is this subscript evaluated in the body of a `try` that has an `except KeyError` / `except LookupError` handler?"""
+        child = e
+        q = getattr(e, "_parent", None)
+        while q is not None and not isinstance(q, (ast.FunctionDef, ast.AsyncFunctionDef, ast.Lambda, ast.ClassDef)):
+            if isinstance(q, ast.Try) and any(child is st_ for st_ in q.body):
+                for h in q.handlers:
+                    names = [h.type] if h.type is not None and not isinstance(h.type, ast.Tuple) else (list(h.type.elts) if h.type is not None else [])
+                    if any(ast.unparse(n_).split(".")[-1] in ("KeyError", "LookupError") for n_ in names):
+                        return True
+            child = q
+            q = getattr(q, "_parent", None)
+        return False
 
     def e_Tuple(self, e, st, out):
         return [(("tuple", tuple(vs)), s) for vs, s in self._seq(e.elts, st, out)]
@@ -1403,7 +1438,13 @@ class Interp:
             i = 0
             for k in e.keys:
                 if k is None:
-                    items.append((None, vs[i]))
+                    sp = vs[i]
+                    if sp[0] == "dict" and all(k_ is not None and k_[0] == "const" for k_, _v in sp[1]):
+                        # **{known constant keys}: the display is the merged display (a later key replaces an earlier one in place)
+                        for k_, v_ in sp[1]:
+                            items = [(a, b) for a, b in items if a != k_] + [(k_, v_)] if any(a == k_ for a, _b in items) else items + [(k_, v_)]
+                    else:
+                        items.append((None, sp))
                     i += 1
                 else:
                     items.append((vs[i], vs[i + 1]))
@@ -1713,7 +1754,16 @@ class Interp:
             fi = self.p.func(cv[1])
             captured = cv[2]
         elif cv[0] == "attr" and cv[1][0] in ("param",) and cv[1][1] in ("self", "cls"):
-            pass
+            # a bound method that travelled as a value (functools.partial(self._m, x), h = self._m; h()): the method of the
+            # receiver class of the analysis, as `self._m(...)` written in place would be
+            try:
+                m_ = self.p.find_method(self.frames[0].self_cls, cv[2]) if self.frames[0].self_cls is not None else None
+            except Exception:
+                m_ = None
+            if isinstance(m_, FuncInfo) and not any(d in ("property", "cached_property") for d in m_.decorators):
+                fi = m_
+                recv = None if "staticmethod" in m_.decorators else cv[1]
+                cv = ("func", m_.fq)
         # ---- value objects of the repository (see _construct): methods on them, calling them, functools.partial
         if meta is None and cv[0] == "attr" and cv[1][0] in ("obj", "record"):
             special = self._record_method(cv[1], cv[2], args, kwargs) if cv[1][0] == "record" else None
@@ -1912,10 +1962,12 @@ class Interp:
                     env[("L", no, nm)] = dv[0][0]
                 else:
                     env[("L", no, nm)] = ("top", f"{fi.name}.{nm}")
-            if params.vararg and params.vararg.arg not in bound:
-                env[("L", no, params.vararg.arg)] = ("tuple", ())
+            if params.vararg:
+                env[("L", no, params.vararg.arg)] = bound.get(params.vararg.arg, ("tuple", ()))
             if params.kwarg:
-                env[("L", no, params.kwarg.arg)] = ("dict", ())
+                # **kwargs collects, in call order, the keyword arguments that name no parameter
+                named = {a.arg for a in params.posonlyargs + params.args + params.kwonlyargs}
+                env[("L", no, params.kwarg.arg)] = ("dict", tuple((("const", k), v) for k, v in kwargs if k not in named))
             for nm, v in captured:
                 if ("L", no, nm) not in env:
                     env[("L", no, nm)] = v
